@@ -268,8 +268,8 @@ fn top_level_information_object_declaration(
     into((
         skip_ws(many0(comment)),
         skip_ws(context_boundary(identifier)),
-        skip_ws(opt(parameterization)),
-        skip_ws(uppercase_identifier),
+        skip_ws_and_comments(opt(parameterization)),
+        skip_ws_and_comments(uppercase_identifier),
         preceded(assignment, information_object),
     ))
     .parse(input)
@@ -281,8 +281,8 @@ fn top_level_object_set_declaration(
     into((
         skip_ws(many0(comment)),
         skip_ws(context_boundary(identifier)),
-        skip_ws(opt(parameterization)),
-        skip_ws(uppercase_identifier),
+        skip_ws_and_comments(opt(parameterization)),
+        skip_ws_and_comments(uppercase_identifier),
         preceded(assignment, object_set),
     ))
     .parse(input)
